@@ -18,6 +18,10 @@ theorem wrList_none {m : List Byte} {off : Nat} {d : List Byte} (h : ¬ off + d.
     wrList m off d = none := by
   simp [wrList, h]
 
+theorem rd_all (d : List Byte) : rd d 0 d.length = d := by simp [rd]
+
+theorem rd_zero (m : List Byte) (off : Nat) : rd m off 0 = [] := by simp [rd]
+
 /-- unfold both machines and compute; side conditions of the checked loads/stores by `omega` -/
 macro "tr_simp" "[" ts:Lean.Parser.Tactic.simpLemma,* "]" : tactic => `(tactic|
   simp (disch := ((try simp only [rd_length, wr_length, fresh_length, List.length_cons, List.length_nil, List.length_map, bytesOf]); omega))
@@ -25,7 +29,7 @@ macro "tr_simp" "[" ts:Lean.Parser.Tactic.simpLemma,* "]" : tactic => `(tactic|
      ple, plt, pge, pgt, peq, prel, tern, band, bor, bnot, truthy, nullPtr, cellPtr,
      newArr, memcopy, memmove, load, store, store0, deleteArr, getBlk, setBlk, disjoint, allocId, checkLive, deleteId, newBlock,
      Store.load, Store.write, Store.release, liftO, newCap, ptrSub, Buf.termIfOwning, Buf.home, Buf.owning, Buf.default, cfault, fault,
-     noOverlap, rdList_some, wrList_some, List.lookup, List.filter_cons, List.filter_nil, List.map_cons, List.map_nil, $ts,*, *])
+     noOverlap, rd_all, rd_zero, rdList_some, wrList_some, List.lookup, List.filter_cons, List.filter_nil, List.map_cons, List.map_nil, $ts,*, *])
 
 set_option hygiene false in
 /-- the facts about an owning object `own id m` with ledger `L` that the computation needs -/
